@@ -117,6 +117,8 @@ def configs(kind, tier):
         out.append(("tmpl=1985-07-23T13:45:56.123456789Z", ALT_DATE + ALT_TIME))
     elif kind == "annual":
         out.append(("tmpl=07-23", (7, 23)))
+    if kind in ("date", "datetime", "instant"):
+        out.append(("2dy=79", DEFAULT_TMPL[kind]))      # with_two_digit_year_max(79); only paired with 'yy' patterns
     return out
 
 
@@ -124,6 +126,8 @@ def apply_config(kind, pat, label):
     """Returns (pattern object, template tuple) for a configuration label."""
     if label == "default":
         return pat, DEFAULT_TMPL[kind]
+    if label.startswith("2dy="):
+        return pat.with_two_digit_year_max(int(label[4:])), DEFAULT_TMPL[kind]
     if label.startswith("cal="):
         cal = CalendarSystem.for_id(label[4:])
         p2 = pat.with_calendar(cal)
@@ -224,6 +228,7 @@ class Case:
     def __init__(self, kind, text, cname, label, pat, tmpl, spec, safe, delim):
         self.kind, self.text, self.cname, self.label = kind, text, cname, label
         self.pat, self.tmpl, self.spec, self.safe, self.delim = pat, tmpl, spec, safe, delim
+        self.tdy = int(label[4:]) if label.startswith("2dy=") else 30
 
     def desc(self):
         return {"kind": self.kind, "pattern": self.text, "culture": self.cname or "<invariant>", "config": self.label}
@@ -242,7 +247,7 @@ def run_case(acc: Acc, c: Case, values, twin=None):
     good = []
     tmpl_proj = None
     if spec is not None and c.tmpl is not None:
-        tmpl_proj = T.project(spec, c.tmpl, c.tmpl, ampm_carried)
+        tmpl_proj = T.project(spec, c.tmpl, c.tmpl, ampm_carried, c.tdy)
     for vi, v in enumerate(values):
         acc.count(states=1)
         try:
@@ -292,7 +297,7 @@ def run_case(acc: Acc, c: Case, values, twin=None):
             acc.outcome("O3 not applicable: pattern not scanned as delimited")
             continue
         try:
-            pv = T.project(spec, c.tmpl, v, ampm_carried)
+            pv = T.project(spec, c.tmpl, v, ampm_carried, c.tdy)
         except Exception as e:  # noqa: BLE001  calendar API raising inside the model: treat as not representable
             if exc_origin(e) == "harness":
                 raise
@@ -565,12 +570,6 @@ def pattern_list(kind, tier):
     return tuple(pats)
 
 
-def culture_sensitive(pat: G.Pat) -> bool:
-    if pat.delim in ("sep", "fixed", "T", "ld+lt", "ld", "lt", "lt-first") and (":" in pat.text or "/" in pat.text):
-        return True
-    return any(n in ("mtext", "dow", "ampm", "era") for n in pat.names)
-
-
 def _with_cfg(acc, kind, base, label, text, cname):
     try:
         return apply_config(kind, base, label)
@@ -583,65 +582,71 @@ def _with_cfg(acc, kind, base, label, text, cname):
         return None, None
 
 
+def check_custom_pattern(acc, hacc, kind, tier, pat, reps, rot, do_history):
+    """Everything done for one generated pattern: cultures x configurations x values, then the shared-object history."""
+    cfgs = configs(kind, tier)
+    comp = T.relevant_class_components(pat.text, pat.names)
+    if comp:
+        # one representative per class of the partition restricted to what this pattern can depend on
+        seen_keys, cnames = set(), []
+        for name, key in reps:
+            pk = tuple(key[i] for i in comp)
+            if name == "" or pk not in seen_keys:
+                seen_keys.add(pk)
+                cnames.append(name)
+    else:
+        cnames = ("",) + tuple(rot)
+    for ci, cname in enumerate(cnames):
+        spec = T.spec_of_pat(pat, props(cname))
+        base = create(acc, kind, pat.text, cname, True, spec, pat.delim)
+        if base is None:
+            continue
+        if ci % 2 == 1 and cname != "":
+            # the same pattern reached through with_culture from the invariant one
+            inv = create(acc, kind, pat.text, "", True, spec, pat.delim)
+            if inv is not None:
+                try:
+                    base = inv.with_culture(culture(cname))
+                    acc.count(transitions=1)
+                except Exception as e:  # noqa: BLE001
+                    acc.lib_exception("C07/%s/with_culture" % kind, e, {"pattern": pat.text, "culture": cname})
+                    continue
+        twin = create(acc, kind, pat.text, cname, True, spec, pat.delim)
+        for li, (label, _) in enumerate(cfgs):
+            if li > 0 and cname != "":
+                continue          # template configurations are explored in the invariant culture
+            if label.startswith("cal=") and not (pat.names and (set(pat.names) & G.DATE_FIELD_NAMES)):
+                continue
+            if label.startswith("2dy=") and dict(pat.fields).get("yoe") != "yy":
+                continue
+            if label.startswith("cal=") and "mtext" in pat.names and label[4:] == "Badi":
+                # the Badi template (2000-01-01 ISO) lies in month 16: no month name exists for it, and the property
+                # pairs month-name fields only with months 1-12
+                acc.outcome("configuration skipped: template month has no name")
+                continue
+            p, tmpl = _with_cfg(acc, kind, base, label, pat.text, cname)
+            if p is None:
+                continue
+            tw = twin if li == 0 else None
+            tcal = tmpl[0] if kind in ("date", "datetime", "instant") else None
+            small = kind in ("datetime", "instant") and (tier == "quick" or len(pat.fields) > 2)
+            values = value_alphabet(kind, tcal, "cal" in pat.names, small, tier == "thorough")
+            c = Case(kind, pat.text, cname, label, p, tmpl, spec, True, pat.delim)
+            good = run_case(acc, c, values, tw)
+            if do_history and cname == "" and good and (li == 0 or len(pat.fields) == 1):
+                def make_fresh(kind=kind, text=pat.text, label=label):
+                    q = KCLS[kind].create(text, CultureInfo.invariant_culture)
+                    return apply_config(kind, q, label)[0]
+                extra = [T.to_lib(kind, values[len(values) // 2])]
+                run_history(hacc, c, make_fresh, good, extra)
+
+
 def custom_worker(task):
     kind, tier, lo, hi, reps, rot, do_history = task
-    acc = Acc()
-    pats = pattern_list(kind, tier)[lo:hi]
-    cfgs = configs(kind, tier)
-    for pat in pats:
-        comp = T.relevant_class_components(pat.text, pat.names)
-        if comp:
-            # one representative per class of the partition restricted to what this pattern can depend on
-            seen_keys, cnames = set(), []
-            for name, key in reps:
-                pk = tuple(key[i] for i in comp)
-                if name == "" or pk not in seen_keys:
-                    seen_keys.add(pk)
-                    cnames.append(name)
-        else:
-            cnames = ("",) + rot
-        for ci, cname in enumerate(cnames):
-            spec = T.spec_of_pat(pat, props(cname))
-            base = create(acc, kind, pat.text, cname, True, spec, pat.delim)
-            if base is None:
-                continue
-            if ci % 2 == 1 and cname != "":
-                # the same pattern reached through with_culture from the invariant one
-                inv = create(acc, kind, pat.text, "", True, spec, pat.delim)
-                if inv is not None:
-                    try:
-                        base = inv.with_culture(culture(cname))
-                        acc.count(transitions=1)
-                    except Exception as e:  # noqa: BLE001
-                        acc.lib_exception("C07/%s/with_culture" % kind, e, {"pattern": pat.text, "culture": cname})
-                        continue
-            twin = create(acc, kind, pat.text, cname, True, spec, pat.delim)
-            for li, (label, _) in enumerate(cfgs):
-                if li > 0 and cname != "":
-                    continue          # template configurations are explored in the invariant culture
-                if label.startswith("cal=") and not (pat.names and (set(pat.names) & G.DATE_FIELD_NAMES)):
-                    continue
-                if label.startswith("cal=") and "mtext" in pat.names and label[4:] == "Badi":
-                    # the Badi template (2000-01-01 ISO) lies in month 16: no month name exists for it, and the property
-                    # pairs month-name fields only with months 1-12
-                    acc.outcome("configuration skipped: template month has no name")
-                    continue
-                p, tmpl = _with_cfg(acc, kind, base, label, pat.text, cname)
-                if p is None:
-                    continue
-                tw = twin if li == 0 else None
-                tcal = tmpl[0] if kind in ("date", "datetime", "instant") else None
-                small = kind in ("datetime", "instant") and (tier == "quick" or len(pat.fields) > 2)
-                values = value_alphabet(kind, tcal, "cal" in pat.names, small, tier == "thorough")
-                c = Case(kind, pat.text, cname, label, p, tmpl, spec, True, pat.delim)
-                good = run_case(acc, c, values, tw)
-                if do_history and cname == "" and good and (li == 0 or len(pat.fields) == 1):
-                    def make_fresh(kind=kind, text=pat.text, label=label):
-                        q = KCLS[kind].create(text, CultureInfo.invariant_culture)
-                        return apply_config(kind, q, label)[0]
-                    extra = [T.to_lib(kind, values[len(values) // 2])]
-                    run_history(acc, c, make_fresh, good, extra)
-    return acc
+    acc, hacc = Acc(), Acc()
+    for pat in pattern_list(kind, tier)[lo:hi]:
+        check_custom_pattern(acc, hacc, kind, tier, pat, reps, rot, do_history)
+    return acc, hacc
 
 
 def standard_expansion(kind, letter, P: T.Props):
@@ -725,7 +730,7 @@ CALENDAR_CARRYING = {("date", "full_roundtrip"), ("datetime", "full_roundtrip")}
 
 def builtin_worker(task):
     kind, attr, exact = task
-    acc = Acc()
+    acc, hacc = Acc(), Acc()
     try:
         pat = getattr(KCLS[kind], attr)
         twin = getattr(KCLS[kind], attr)
@@ -734,9 +739,9 @@ def builtin_worker(task):
             raise
         if isinstance(e, AttributeError):
             acc.degrade("built-in pattern %s.%s not present" % (KCLS[kind].__name__, attr))
-            return acc
+            return acc, hacc
         acc.lib_exception("C07/%s/builtin-%s" % (kind, attr), e, {"attr": attr})
-        return acc
+        return acc, hacc
     carrying = (kind, attr) in CALENDAR_CARRYING
     tcal = "ISO" if kind in ("date", "datetime", "instant") else None
     values = value_alphabet(kind, tcal, carrying, False)
@@ -791,8 +796,8 @@ def builtin_worker(task):
                 return KCLS[kind].create_with_invariant_culture(text)
             return getattr(KCLS[kind], attr)
         if isinstance(text, str):
-            run_history(acc, c, make_fresh, good, [])
-    return acc
+            run_history(hacc, c, make_fresh, good, [])
+    return acc, hacc
 
 
 # ---------------------------------------------------------------------------------------------------------------
@@ -842,8 +847,9 @@ def run(ctx):
     ctx.note("seed_rotated_cultures", list(rot_pick))
 
     if not only or "builtin" in only:
-        for acc in pmap(builtin_worker, BUILTINS):
+        for acc, hacc in pmap(builtin_worker, BUILTINS):
             ctx.merge_part("builtin", acc)
+            ctx.merge_part("history", hacc)
     if not only or "standard" in only:
         chunks = [(tuple(names[i:i + 13]), tier) for i in range(0, len(names), 13)]
         for acc in pmap(standard_worker, rotate(chunks, ctx.seed)):
@@ -866,7 +872,40 @@ def run(ctx):
         ctx.cap("patterns without culture-dependent parts run in the invariant culture plus %d seed-rotated cultures, not in every class representative" % len(rot_pick))
         # interleave kinds so that the expensive ones do not all end up at the tail
         tasks = rotate(sorted(tasks, key=lambda t: (t[2] // 400, t[0])), ctx.seed)
-        for acc in pmap(custom_worker, tasks):
+        for acc, hacc in pmap(custom_worker, tasks):
             ctx.merge_part("custom", acc)
+            ctx.merge_part("history", hacc)
     ctx.exhaustive = False
     ctx.cap("pattern space bounded: <= %d fields per custom pattern; value space bounded to the boundary alphabets" % (2 if tier == "quick" else 3))
+
+
+def replay(rec) -> bool:
+    """Re-execute the smallest unit of work containing a recorded case; True when the same violation key reappears."""
+    key = rec.get("key", "")
+    case = rec.get("case") or {}
+    tier = rec.get("tier", "quick")
+    kind = case.get("kind") or (key.split("/")[1] if key.count("/") >= 1 else None)
+    cname = case.get("culture", "")
+    cname = "" if cname in ("<invariant>", None) else cname
+    label = case.get("config", "default")
+    found = {}
+    if "builtin" in case or str(label).startswith("builtin:"):
+        attr = case.get("builtin") or label.split(":", 1)[1]
+        for k, a, exact in BUILTINS:
+            if k == kind and a == attr:
+                acc, hacc = builtin_worker((k, a, exact))
+                found.update(acc.violations)
+                found.update(hacc.violations)
+    else:
+        text = case.get("pattern")
+        pat = next((p for p in pattern_list(kind, tier) if p.text == text), None) if kind in G.KINDS else None
+        if pat is not None:
+            acc, hacc = Acc(), Acc()
+            reps = (("", T.class_key(props(""))),) + (((cname, T.class_key(props(cname))),) if cname else ())
+            check_custom_pattern(acc, hacc, kind, tier, pat, reps, (cname,) if cname else (), True)
+            found.update(acc.violations)
+            found.update(hacc.violations)
+        else:
+            acc = standard_worker(((cname,), tier))
+            found.update(acc.violations)
+    return key in found
